@@ -256,8 +256,11 @@ class Check:
         """like impl() but a crash / timeout of the implementation-side driver is recorded as a broken
         correspondence obligation and None is returned, so that the rest of the check still runs"""
         name = "impl:%s%s" % (script, (":" + label) if label else "")
+        t0 = time.time()
         try:
             r = self.impl(script, payload, timeout=timeout, **kw)
+            if os.environ.get("VERIF_TIMING"):
+                sys.stderr.write("TIMING %s %.1fs\n" % (name, time.time() - t0))
             self.oblige(name, True, kind="correspondence")
             return r
         except subprocess.TimeoutExpired:
